@@ -39,6 +39,7 @@ def roundtrip(pick, enc, hexbm, maxvar=None, cfgs=None, cfgname='packaged'):
 
         def rp():
             return {'kind': 'roundtrip', 'args': {'msg': msg_witness(msg, elems, ev), 'enc': enc, 'hexbm': hexbm, 'cfg': cfgname if cfgs is None else cfgs}}
+        core.set_fallback(rp, 'C01/concretised')
         with guard('dumps', 'C01/encode-exception', rp):
             b = iso.dumps(dict(msg), encoding=enc, hex_bitmap=hexbm, iso_config=cfgs)
         with guard('loads(dumps(m))', 'C01/decode-exception', rp):
